@@ -3,6 +3,7 @@ package main
 
 import (
 	"fmt"
+	"os"
 	"math/big"
 	"math/rand"
 
@@ -158,6 +159,66 @@ func main() {
 			}, in)
 		}
 	}
+	// ---- gateway backendRefs through the real pipeline (base 128) ----
+	if o.Replay == "" {
+		ng := o.Count(150, 3000)
+		gwdir := o.Out + "/gw"
+		gws := []input{{IW: 128, Clusters: [][2]int{{255, 1}, {1, 1}}}, {IW: 128, Clusters: [][2]int{{1, 1}, {256, 3}, {256, 5}}}}
+		for i := 0; i < ng; i++ {
+			g := gen(rng)
+			g.IW = 128
+			for j := range g.Clusters {
+				if g.Clusters[j][1] > 12 {
+					g.Clusters[j][1] %= 13
+				}
+			}
+			gws = append(gws, g)
+		}
+		for _, in := range gws {
+			obs, attached := runGateway(gwdir, in)
+			if !attached {
+				res.Count("gw_not_attached")
+				continue
+			}
+			// what the model is asked: groups without servers keep their configured weight
+			full := make([]int, len(obs))
+			mixed := false
+			for i, w := range obs {
+				switch {
+				case w == -2:
+					mixed = true
+				case w == -1:
+					full[i] = in.Clusters[i][0]
+				default:
+					full[i] = w
+				}
+			}
+			res.Seen("gw:"+fmt.Sprint(in), len(in.Clusters) >= 2)
+			res.Count(fmt.Sprintf("gw_groups=%d", len(in.Clusters)))
+			res.OracleChecks++
+			if mixed {
+				res.Fail(hx.Failure{Key: "C16/gw-mixed-weights", What: "servers of one backendRef carry different weights", Input: in, Observed: obs})
+				continue
+			}
+			if k, what := oracle(in, full); k != "" {
+				res.Count("oracle_fail_gw_" + k)
+				res.Fail(hx.Failure{Key: "C16/gw-" + k, What: "gateway backendRefs: " + what, Input: in, Observed: obs})
+			}
+			if !o.Search {
+				var cls, ob []string
+				for i, c := range in.Clusters {
+					cls = append(cls, hx.Tuple(hx.Z(int64(c[0])), hx.Z(int64(c[1]))))
+					ob = append(ob, hx.Z(int64(full[i])))
+				}
+				in := in
+				cw.Add(func(id int) string {
+					return fmt.Sprintf("R {| rid := %s; riw := %s; rcls := %s; robs := %s |}", hx.N(id), hx.Z(128), hx.List(cls), hx.List(ob))
+				}, in)
+			}
+		}
+		os.RemoveAll(gwdir)
+	}
+
 	// ---- blue/green through the real updater ----
 	var bgs []bgInput
 	if o.Replay == "" {
